@@ -27,7 +27,7 @@ from pysym import npshim, pycodec, sym
 from pysym.sym import SymBool, SymFloat, SymInt, Unsupported
 
 W = sym.W
-CAP = 16           # Serializer.new(CAP): CAP+1 bytes
+CAP = 24           # Serializer.new(CAP): CAP+1 bytes; the largest case (two 64-bit elements at bit offset 23) needs 19
 
 
 def lengths(tier: str) -> typing.List[int]:
@@ -383,7 +383,7 @@ op, off, n, extra = c["op"], c["off"], c["n"], c["extra"]
 def fl(s): return struct.unpack("<d", bytes.fromhex(s[2:])[::-1])[0]
 try:
     if c["side"] == "ser":
-        s = ns.Serializer.new(16)
+        s = ns.Serializer.new(24)
         k = 0
         while f"p{k}" in x:
             s._buf[k] = x[f"p{k}"]; k += 1
